@@ -14,7 +14,60 @@ RULE = ("(a) every name of 1-2 bytes over all byte values except NUL and newline
         "at first/middle/last positions across batches), evaluated by ninja's own EvaluateCommand and handed to the real "
         "/bin/sh -c: the helper must receive exactly the names, one word each; names made only of [A-Za-z0-9_+-./] must "
         "appear verbatim. (b) response files: engine A runs the rspfile templates under every schedule and fault: content "
-        "at command start equals the declared rspfile_content, file removed after success, kept after failure")
+        "at command start equals the declared rspfile_content, file removed after success, kept after failure. (c) the "
+        "name as the first word of the command line ('command = $in $out'), every 1-2 byte name over {- + e c x a . _}, run by "
+        "the unmodified ninja executable through its own /bin/sh spawn: a script of that name must be what runs")
+
+
+def first_word(c, only=None):
+    """`command = $in $out` with every 1-2 byte name over {- + e c x a . _}: /bin/sh must take the name as the command
+    word (a script of that name in the working directory, found through PATH, records $0 and $1), never as its own options."""
+    import itertools
+    import shutil
+    import tempfile
+    ninja = vbuild.real_ninja()
+    alpha = "-+ecxa._"
+    names = [a for a in alpha] + [a + b for a, b in itertools.product(alpha, repeat=2)]
+    names = [n for n in names if n not in (".", "..") and (only is None or n == only)]
+    root = tempfile.mkdtemp(prefix="c16fw.", dir="/dev/shm")
+    runs = bad = 0
+    try:
+        for n in names:
+            d = os.path.join(root, "w")
+            shutil.rmtree(d, ignore_errors=True)
+            os.mkdir(d)
+            with open(os.path.join(d, n), "w") as f:
+                f.write('#!/bin/sh\nprintf "%s|%s" "$0" "$1" > marker\n: > "$1"\n')
+            os.chmod(os.path.join(d, n), 0o755)
+            with open(os.path.join(d, "build.ninja"), "w") as f:
+                f.write("rule run\n  command = $in $out\nbuild out: run %s\n" % n)
+            env = dict(os.environ, PATH=d + ":" + os.environ.get("PATH", ""))
+            r = subprocess.run([ninja, "-C", d], stdout=subprocess.PIPE, stderr=subprocess.STDOUT, env=env, text=True)
+            runs += 1
+            got = None
+            try:
+                got = open(os.path.join(d, "marker")).read()
+            except OSError:
+                pass
+            want = "%s|out" % os.path.join(d, n)
+            if got not in (want, "%s|out" % n, "./%s|out" % n):
+                facts = {"first_word": True, "name_starts_with_dash_or_plus": n[0] in "-+"}
+                known = None
+                for f in c.findings:
+                    m = f.get("match", {})
+                    if m.get("clause") == "first-word" and all(facts.get(k) == v for k, v in m.get("facts", {}).items()):
+                        known = f
+                if known:
+                    c.known(known["id"], "%s [%s] e.g. name %r" % (known["what"], known["id"], n))
+                    continue
+                bad += 1
+                if bad <= 3:
+                    c.violation("C16/first-word: with 'command = $in $out' and input %r the shell did not run a command of that "
+                                "name with the output as its argument (marker %r); ninja said: %s" % (n, got, r.stdout[-300:]),
+                                {"name_hex": n.encode().hex(), "var": "in", "why": "first word", "engine": "rb-first-word"})
+    finally:
+        shutil.rmtree(root, ignore_errors=True)
+    return {"first_word_names": len(names), "first_word_real_ninja_runs": runs}
 
 
 def main(argv):
@@ -28,6 +81,12 @@ def main(argv):
         r = json.load(open(c.replay))
         if r.get("engine") == "nx":
             nxcheck.replay(c, ["C16"])
+        if r.get("engine") == "rb-first-word":
+            c.findings = []
+            first_word(c, only=bytes.fromhex(r["name_hex"]).decode())
+            for what, _ in c.violations:
+                print(what)
+            sys.exit(1 if c.violations else 0)
         rc = subprocess.call([exe, "helper=" + helper, "replay=" + r["name_hex"]])
         sys.exit(1 if rc == 1 else (0 if rc == 0 else 2))
     cmds = [[exe, "helper=" + helper, "shard=%d" % i, "nshards=%d" % NCPU, "three=1"] for i in range(NCPU)]
@@ -44,6 +103,8 @@ def main(argv):
         if val["violations"]:
             c.violation("C16/shell-word: $%s with name %r: %s" % (val["first_var"], bytes.fromhex(val["first_bad"]), val["first_why"]),
                         {"name_hex": val["first_bad"], "var": val["first_var"], "why": val["first_why"]})
+    # (c) the name as the FIRST word of the command line, through the unmodified executable and its own spawn path
+    fw = first_word(c)
     # (b) rspfile lifecycle through engine A
     T = [t for t in templates.templates(c.tier) if "rspfile" in t["tags"]]
     agg = nxcheck.run(c, T, ["C16"], tag="rsp")
@@ -56,5 +117,6 @@ def main(argv):
         "rspfile_scenarios": agg["scenarios"], "rspfile_invocations": agg["invocations"], "rspfile_schedules": agg["schedules"],
         "samples": samples[:4] + agg["samples"][:2],
     }
+    cov.update(fw)
     c.finish(cov, assumptions=["/bin/sh of this sandbox (dash) is the reference shell",
                                "names containing NUL or newline are outside the property"], exhaustive=True)
